@@ -86,6 +86,14 @@ func genC03(r *gen.Rand) *C03Case {
 	root := r.Pick("a", "svc", "app")
 	comps := []string{"b", "c", "prod", "eu"}
 	gen.Shuffle(r, comps)
+	if r.Chance(0.15) {
+		// a repeated component, or a component that looks like an extension
+		comps[0], comps[1] = r.Pick("b", "json", "yaml"), r.Pick("b", "json", "toml")
+		if comps[0] == root {
+			comps[0] = "b"
+		}
+		c.Shape = append(c.Shape, "odd-components")
+	}
 	name := root
 	base := mkBase(root)
 	var chain []string // file paths, base first
@@ -126,7 +134,7 @@ func genC03(r *gen.Rand) *C03Case {
 		}
 	}
 	// variations
-	switch r.Intn(12) {
+	switch r.Intn(15) {
 	case 0: // $parent name pointing at another base
 		put(filepath.Join(dir, "other.yaml"), mkBase("other"))
 		setParent(top, "other", r.Chance(0.3))
@@ -206,6 +214,25 @@ func genC03(r *gen.Rand) *C03Case {
 		setParent(chain[0], "x.y", false)
 		c.Linear = false
 		c.Shape = append(c.Shape, "parent-chain")
+	case 9: // diamond: two parents sharing a grandparent (the grandparent is loaded twice)
+		put(filepath.Join(dir, "g.yaml"), mkBase("g"))
+		put(filepath.Join(dir, "d1.yaml"), map[string]any{"$parent": "g", "k_d1": 1, "list": []any{"d1"}}, map[string]any{"$match": nil, "d1doc": 2})
+		put(filepath.Join(dir, "d2.json"), map[string]any{"$parent": "g", "k_d2": 2, "list": []any{"d2"}})
+		setParent(top, []any{"d1", "d2"}, false)
+		c.Linear = false
+		c.Shape = append(c.Shape, "diamond")
+	case 10: // the same parent named twice
+		put(filepath.Join(dir, "p1.yaml"), map[string]any{"list": []any{"p1"}, "k_p1": 1})
+		setParent(top, []any{"p1", "p1"}, false)
+		c.Linear = false
+		c.Shape = append(c.Shape, "parent-twice")
+	case 11: // wildcard matching files of different formats, in name order
+		put(filepath.Join(dir, "wa.yaml"), map[string]any{"list": []any{"wa"}, "w": "a"})
+		put(filepath.Join(dir, "wb.json"), map[string]any{"list": []any{"wb"}, "w": "b"})
+		put(filepath.Join(dir, "wc.yml"), map[string]any{"list": []any{"wc"}, "w": "c"})
+		setParent(top, "w*", r.Chance(0.3))
+		c.Linear = false
+		c.Shape = append(c.Shape, "parent-wildcard-formats")
 	case 8: // $parent with invalid / conflicting values
 		switch r.Intn(3) {
 		case 0:
@@ -285,6 +312,7 @@ type c03Obs struct {
 	Outcome *procsim.Outcome `json:"outcome,omitempty"`
 	Want    any              `json:"want,omitempty"`
 	Loads   []string         `json:"model_loads,omitempty"`
+	Named   []string         `json:"-"` // loads that are not wildcard matches
 	// stats
 	Chain     int  `json:"-"`
 	Fired     bool `json:"-"`
@@ -477,6 +505,9 @@ func judgeC03(e *Env, pool *libsim.Pool, c *C03Case, tag string, run int64) (*c0
 	for _, l := range loads {
 		rp, _ := filepath.Rel(root, l.Path)
 		obs.Loads = append(obs.Loads, rp)
+		if !l.Wildcard {
+			obs.Named = append(obs.Named, rp)
+		}
 	}
 	if ambiguous {
 		return obs, nil // outside the property's quantifier
@@ -485,6 +516,15 @@ func judgeC03(e *Env, pool *libsim.Pool, c *C03Case, tag string, run int64) (*c0
 	if c.Fault != "" {
 		if expectFail {
 			return obs, nil
+		}
+		named := false
+		for _, l := range obs.Named {
+			if l == c.FaultPath {
+				named = true
+			}
+		}
+		if !named {
+			return obs, nil // only a named layer of the chain must be fatal when faulted
 		}
 		if err := c03ApplyFault(c, root, inv); err != nil {
 			return nil, &libsim.InfraError{Msg: err.Error()}
@@ -801,8 +841,8 @@ func RunC03(e *Env) (int, error) {
 		// fault sweep over the named layers of the chain
 		var named []string
 		seen := map[string]bool{}
-		for _, l := range obs.Loads {
-			if !seen[l] && !strings.Contains(l, "pre") {
+		for _, l := range obs.Named {
+			if !seen[l] {
 				seen[l] = true
 				named = append(named, l)
 			}
